@@ -419,6 +419,7 @@ def frd_build_lti(l):
 
 class C03(Family):
     prop = "C03"
+    extra_modules = ["CtrlVerif.Props.C03FL"]     # Faddeev-LeVerrier correct as an algorithm (no certificate hypothesis)
     externals = ["scipy.signal.tf2ss (exact counterpart in the model: normalize + controller canonical form)",
                  "scipy.signal.ss2tf / numpy.poly of eigenvalues (model: certified Faddeev-LeVerrier; "
                  "values compared at rational points within a conditioning-scaled tolerance)",
